@@ -83,9 +83,7 @@ theorem firstField_mem {fs : List Field} {s : String} {f : Field} (h : firstFiel
   unfold firstField at h
   exact ⟨List.mem_of_find?_eq_some h, by simpa using List.find?_some h⟩
 
-theorem toObsReq_assemble (h : ReqHead) (info : Meta) (wf : WFReq h)
-    (k2 : ¬ KF.C05.headerNameCaseReq h) (k3 : ¬ KF.C05.langWeightOws h) (k4 : ¬ KF.C05.langTagCase h)
-    (k5 : ¬ KF.C05.unicodeSpaceReq h) :
+theorem toObsReq_assemble (h : ReqHead) (info : Meta) (wf : WFReq h) :
     toObsReq (assembleReq h.method h.target h.ver (hdrsAll h.fields) (requestLine h) info) =
       some (reportReq h) := by
   obtain ⟨_, _, _, _, _, _, hfw, hck, hrf, hlang⟩ := wf
@@ -110,15 +108,7 @@ theorem toObsReq_assemble (h : ReqHead) (info : Meta) (wf : WFReq h)
       obtain ⟨hne, hwfi, hval⟩ := hlang
       simp only [Option.map_some, langOfHeader]
       rw [hval]
-      apply highestQualityLanguage_plain _ hne
-      intro i hi
-      refine ⟨hwfi i hi, ?_, ?_⟩
-      · cases hq : KF.C05.weightOws i with
-        | false => rfl
-        | true => exact absurd ⟨by rw [hf]; rfl, i, hi, hq⟩ k3
-      · by_cases hq : (splitByte 45 i.tag).headD [] = primaryLower i
-        · exact hq
-        · exact absurd ⟨by rw [hf]; rfl, i, hi, hq⟩ k4
+      exact highestQualityLanguage_wf _ hne hwfi
   rw [hal, hua, hlangEq]
   simp only [Option.map_some]
   -- the record, field by field
@@ -126,14 +116,7 @@ theorem toObsReq_assemble (h : ReqHead) (info : Meta) (wf : WFReq h)
     unfold convertHeaders
     apply List.map_congr_left
     intro x hx
-    apply convertHeader_eq_sigEntry
-    have e : hdrsOf (reportedReq h.fields) = (reportedReq h.fields).map hdrOf := rfl
-    rw [e, List.mem_map] at hx
-    obtain ⟨p, hp, rfl⟩ := hx
-    obtain ⟨hmem, hcr⟩ := mem_reported hp
-    cases hq : KF.C05.nameCaseOf true (hdrOf p).name with
-    | false => rfl
-    | true => exact absurd ⟨p.1, hmem, hcr, hq⟩ k2
+    exact convertHeader_eq_sigEntry true x
   have hcookie : (if HttpLists.parseCookies = true then cookiesOfHeader (lastValue (hdrsAll h.fields) (ascii "cookie"))
       else []) = cookiesOfField (firstField h.fields "cookie") := by
     have : HttpLists.parseCookies = true := rfl
@@ -146,11 +129,7 @@ theorem toObsReq_assemble (h : ReqHead) (info : Meta) (wf : WFReq h)
     | some f =>
       simp only [Option.map_some, cookiesOfHeader, cookiesOfField]
       have hm := List.mem_of_find?_eq_some hf
-      have hc : ciEq f.name "cookie" = true := by simpa using List.find?_some hf
-      apply parseCookies_eq _ (hfw f hm).2.2.2.1.1
-      cases hq : containsUSpace f.value with
-      | false => rfl
-      | true => exact absurd (Or.inr ⟨f, hm, hc, hq⟩) k5
+      exact parseCookies_eq _ (hfw f hm).2.2.2.1.1
   have hreferer : lastValue (hdrsAll h.fields) (ascii "referer") = (firstField h.fields "referer").map (·.value) := by
     unfold hdrsAll
     exact lastValue_hdrs "referer" (by decide) h.fields 0 hrf'
